@@ -927,7 +927,7 @@ func (d *drv) doAddrMulti(ks []*key, m int64, prog []byte, built bool) {
 	var htab [][2][]byte
 	if built {
 		htab = append(htab, [2][]byte{prog, hashH(prog)})
-		if len(ks) <= 20 && m >= 0 && m < 65536 {
+		if len(ks) <= 8 && m >= 0 && m < 65536 {
 			// decoy: the script over the keys in the given (unsorted) order, with its own hash
 			raw := rawScript(uint16(m), ks, uint16(len(ks)))
 			if !bytes.Equal(raw, prog) {
@@ -1093,7 +1093,7 @@ func (d *drv) randNumBytes() []byte {
 // crafted assembles a CHECKMULTISIG script from parts that may each be unusual.
 func (d *drv) crafted() []byte {
 	c := d.c
-	n := []int{0, 1, 2, 2, 3, 3, 4, 5, 8, 16, 17}[c.Intn(11)]
+	n := []int{0, 1, 2, 2, 3, 3, 4, 5, 2, 3, 6, 8, 16, 17}[c.Intn(14)]
 	ks := d.pick(n, c.Intn(5) == 0)
 	if c.Intn(2) == 0 {
 		ks = specSorted(ks)
